@@ -499,14 +499,24 @@ Qed.
 Fixpoint top_valid (o : obj) : bool :=
   match o with
   | Plain _ s _ => validate (params s)
+  | Fwd _ _ s _ _ => validate (params s)
   | Static x => top_valid x
   | _ => true
   end.
 
 Theorem sig_of_wf o : forall r, top_valid o = true -> sig_of o = Ok r -> validate (params r) = true.
 Proof.
-  induction o as [id s b | fl fa w x IH | fs | x IH | x IH | x IH v]; intros r Ht H; simpl in *.
+  induction o as [id s b | id d s n x IH | fl fa w x IH | fs | x IH | x IH | x IH v];
+    intros r Ht H; simpl in *.
   - injection H as <-. exact Ht.
+  - destruct d.
+    + apply bind_ok in H. destruct H as [xs [_ H]]. eapply forwards_wf. exact H.
+    + match type of H with (match ?X with Ok _ => _ | Err _ => _ end) = _ =>
+        destruct X as [r0|e] eqn:E end.
+      * injection H as <-. apply bind_ok in E. destruct E as [xs [_ E]].
+        apply bind_ok in E. destruct E as [r1 [_ E]]. eapply apply_params_valid. exact E.
+      * match type of H with (if ?B then _ else _) = _ => destruct B end; [discriminate|].
+        injection H as <-. exact Ht.
   - destruct fl; [eapply simple_sig_wf | eapply declared_sig_wf]; exact H.
   - apply bind_ok in H. destruct H as [ss [_ H]]. apply (merge_wf (comb_self_sig :: ss)). exact H.
   - apply IH; assumption.
